@@ -264,6 +264,18 @@ def build_case(spec, dom, cx):
                 items.append(it)
         built = a[tuple(items)]
         return (built,) + spec_getitem(cx, a, items) + (ops,)
+    if k == "getitem_ctlist":
+        # indexing a ComponentTensor over an indexed ListTensor whose entries carry free indices
+        # (ComponentTensor._simplify_indexed looks through the list); operands a, b of equal shape
+        letters = {ch: I["ijkl".index(ch)] for ch in "ijkl"}
+        r = len(a.ufl_shape)
+        inner_idx = tuple(letters[ch] for ch in "ij"[:r])
+        L = as_vector([a[inner_idx], b[inner_idx]])
+        kk = letters["k"]
+        T = as_tensor(L[kk], tuple(letters[ch] for ch in spec["layout"]))
+        items = [letters["l"] if it == "l" else (slice(None) if it == ":" else it) for it in spec["items"]]
+        built = T[tuple(items)]
+        return (built,) + spec_getitem(cx, T, items) + ([a, b],)
     if k == "as_tensor":
         # as_tensor(A[perm of indices], (i,j,..)) : every permutation pair
         p_in, p_out = spec["pin"], spec["pout"]
@@ -659,6 +671,19 @@ def specs(tier):
                 for fa in ("coef", "zero", "sum") + (("list", "ctperm") if len(sh) == 2 else ()):
                     add(case="as_tensor", shapes=(sh,), forms=(fa,), pin=pin, pout="".join(pout), complex=cxm,
                         twin=(fa == "coef" and len(sh) == 2))
+        # component tensors over indexed list tensors with free-index entries, indexed by fixed / free / slice items
+        for sh, names in (((3,), "ik"), ((3, 2), "ijk")):
+            for layout in itertools.permutations(names):
+                dims = {"i": sh[0], "j": sh[1] if len(sh) > 1 else None, "k": 2}
+                tshape = [dims[ch] for ch in layout]
+                pats = [tuple(d - 1 for d in tshape), tuple(0 if n else d - 1 for n, d in enumerate(tshape)),
+                        tuple("l" if n == 0 else d - 1 for n, d in enumerate(tshape)),
+                        tuple("l" if n == len(tshape) - 1 else 0 for n, d in enumerate(tshape)),
+                        tuple(":" if n == 0 else d - 1 for n, d in enumerate(tshape)),
+                        tuple(":" if n == len(tshape) - 1 else d - 1 for n, d in enumerate(tshape))]
+                for items in pats:
+                    for fa in (("coef", "coef"), ("sum", "coef")):
+                        add(case="getitem_ctlist", shapes=(sh, sh), forms=fa, layout="".join(layout), items=items, complex=cxm)
         # list tensors of component tensors / indexed (constructor shortcuts)
         for sh, pin in (((2, 2, 3), "ij"), ((3, 2, 2), "ij"), ((2, 3), "i")):
             for pout in itertools.permutations(pin):
